@@ -68,7 +68,7 @@ class StubContext:
 
     # ---- connectivity (the state of the simulated network, as the message router reports it)
     def has_peer_context(self, peer_context_name):
-        return peer_context_name in self.peers
+        return peer_context_name in self.peers and peer_context_name not in self.sim.unreachable[self.name]
 
     def get_peer_context_names(self):
         return list(self.peers)
@@ -168,6 +168,7 @@ class Sim:
         # serialised (and routed by its destination address) later.  The harness keeps the object and
         # transmits when the handler invocation is over.
         self.outbox = {x: [] for x in nodes}
+        self.unreachable = {x: set() for x in nodes}   # peers whose connection is already out of the router's map
         self.t = 0
 
     # ---------------------------------------------------------------- recording
@@ -232,7 +233,7 @@ class Sim:
             finally:
                 self.pop()
             return
-        if y not in self.ctx[x].peers:
+        if y not in self.ctx[x].peers or y in self.unreachable[x]:
             raise E.QMI_MessageDeliveryException("Can not send message to unknown context %r" % y)
         j = None
         if isinstance(m, P.QMI_SignalMessage):
@@ -403,6 +404,22 @@ class Sim:
         self.mgr[x].handle_object_removed(o)
         self.pop()
         self.flush()          # the removal notices are on the wire before anything else happens
+        self.ev("objremove", x, o, {k: v for k, v in self.sent_n.items() if k[0] == x})
+
+    def op_objremove_u(self, x, o, u):
+        """remove_rpc_object while the peers u are half-way through disconnecting: still listed as remote
+        subscribers, but send_message to them raises (their connection is gone from the router's map)."""
+        if o not in self.ctx[x].objs:
+            return False
+        self.push("objremove_u", ("objremove_u", x, o, tuple(u)))
+        self.ctx[x].objs.discard(o)
+        self.unreachable[x] = set(u)
+        try:
+            self.mgr[x].handle_object_removed(o)
+        finally:
+            self.unreachable[x] = set()
+        self.pop()
+        self.flush()
         self.ev("objremove", x, o, {k: v for k, v in self.sent_n.items() if k[0] == x})
 
     def op_deliver(self, x, y):
@@ -623,6 +640,9 @@ def coq_caseN(sim):
     for e in sim.trace:
         if "check" in e:
             evs.append("ECheck %s %s" % (cs(e["check"]), cobs(e["obs"])))
+        elif e["label"][0] == "objremove_u":
+            _, x, o, u = e["label"]
+            evs.append("EObjRemoveU %s %s %s %s" % (cs(x), cs(o), clist([cs(y) for y in u]), clist([cout(k) for k in e["outs"]])))
         else:
             evs.append("EStep %s %s" % (clabelN(e["label"]), clist([cout(o) for o in e["outs"]])))
     return "(%s, %s)" % (nodes, clist(evs))
@@ -855,6 +875,17 @@ class Oracle:
                     if pa and pb_ and pa["node"] == pb_["node"] and pb_["t1"] is not None and pb_["t1"] < pa["t0"]:
                         self.flag("c07:order", "receiver %s/%d got publication %r before the earlier publication %r" % (
                             x, r, q[i][0][3], q[jx][0][3]))
+        if final_quiescent and sim.quiescent():
+            for x in sim.names:
+                for key in sim.mgr[x]._local_subscriptions:
+                    parts = key.split(".")
+                    if len(parts) != 3:
+                        continue
+                    y, p, sg = parts
+                    if y != x and y in sim.names and y in sim.ctx[x].peers and x in sim.ctx[y].peers and p not in sim.ctx[y].objs:
+                        self.flag("c08:stale-subscription-on-removed-publisher",
+                                  "everything is delivered, %s and %s are connected, %s.%s does not exist, yet %s still has a local "
+                                  "subscription %r (the removal of the publisher did not end it)" % (x, y, y, p, x, key))
         if final_quiescent:
             for call, c in sim.calls.items():
                 self.flag("c08:blocked-forever",
